@@ -85,6 +85,27 @@ def functions_in(src):
 
 def digest(fn): return hashlib.sha256(normalised(fn).encode()).hexdigest()[:16]
 
+def class_shapes(src):
+    """{class name: 'bases | sorted method names'} — a new override (e.g. Blackbody.to) changes the shape of its class"""
+    out = {}
+    for node in ast.parse(src).body:
+        if isinstance(node, ast.ClassDef):
+            meths = sorted({m.name for m in node.body if isinstance(m, (ast.FunctionDef, ast.AsyncFunctionDef))})
+            out[node.name] = ','.join(ast.unparse(b) for b in node.bases) + ' | ' + ' '.join(meths)
+    return out
+
+def _mro_classes(src, names):
+    """the classes of the pinned methods plus every class deriving from them in the same file"""
+    tree = ast.parse(src)
+    want = {n.split('.')[0] for n in names if '.' in n}
+    changed = True
+    while changed:
+        changed = False
+        for node in tree.body:
+            if isinstance(node, ast.ClassDef) and node.name not in want and any(ast.unparse(b).split('.')[-1] in want for b in node.bases):
+                want.add(node.name); changed = True
+    return want
+
 def derive():
     """function lists from the anchors' `where` line ranges on the original snapshot, plus EXTRA"""
     props = [json.loads(l) for l in open(os.path.join(VERIF, 'properties.jsonl'))]
@@ -106,7 +127,11 @@ def compute(repo, spec):
     out = {}
     for path, names in spec.items():
         fns = functions_in(open(os.path.join(repo, path)).read())
+        src = open(os.path.join(repo, path)).read()
         out[path] = {n: (digest(fns[n]) if n in fns else None) for n in names}
+        shapes = class_shapes(src)
+        for c in sorted(_mro_classes(src, names)):
+            if c in shapes: out[path]['class ' + c] = hashlib.sha256(shapes[c].encode()).hexdigest()[:16]
     return out
 
 def check(prop, repo):
@@ -118,7 +143,14 @@ def check(prop, repo):
         try: fns = functions_in(open(os.path.join(repo, path)).read())
         except (OSError, SyntaxError) as e:
             bad.append(f'{path}: cannot be read/parsed ({type(e).__name__})'); continue
+        shapes = class_shapes(open(os.path.join(repo, path)).read())
         for n, h in names.items():
+            if n.startswith('class '):
+                c = n[6:]
+                if c not in shapes: bad.append(f'{path}:{n} no longer exists')
+                elif hashlib.sha256(shapes[c].encode()).hexdigest()[:16] != h:
+                    bad.append(f'{path}:{n} has a different set of methods/bases than when the hand model was validated (new override?)')
+                continue
             if n not in fns: bad.append(f'{path}:{n} no longer exists')
             elif digest(fns[n]) != h: bad.append(f'{path}:{n} differs from the version the hand model was validated against')
     return bad
